@@ -201,11 +201,6 @@ func (i *Iterator) OpenReader(ctx context.Context) (*Reader, error) {
 	if i.closed {
 		return nil, ErrIteratorClosed
 	}
-	// Garbage collection may have moved the data of the current domain within its file
-	// since the iterator was positioned on it.
-	if ptr, ok := i.idx.getGE(ctx, i.currPtr.Start); ok && ptr.TimeRange == i.currPtr.TimeRange {
-		i.currPtr = ptr
-	}
 	return i.readerFactory(ctx, i.currPtr)
 }
 
